@@ -256,3 +256,13 @@ package transaction
 // before it -- checked where each refusal branch starts
 //@   assert @call Info#1: gh("lastRevert", ref(p.am)) == snap
 //@   assert @call Mark#0: gh("lastRevert", ref(p.am)) == snap
+
+// C11 at the end of a block, for one voter who votes in it: the vote transaction moves floor(bVote / r) -- bVote is the balance
+// applyTx reads before that transaction (CallVoteTx, proved above) -- and the end-of-block pass (ChangeVotesByBalance ->
+// getVotesChangesByLogs, by reading: it merges the voter's balance logs of the block) adds floor(bEnd / r) - floor(bStart / r) to
+// the candidate the voter votes for THEN.  For the property these must add up to the voter's weight at the end of the block.
+// They do only if the balance did not cross a multiple of r between the start of the block and the vote: known finding D13.
+//@ lemma vote_then_balance_pass_adds_up(bStart mathint, bVote mathint, bEnd mathint, r mathint)
+//@   props C11
+//@   requires r > 0 && bStart >= 0 && bVote >= 0 && bEnd >= 0
+//@   ensures bVote / r + (bEnd / r - bStart / r) == bEnd / r
